@@ -84,6 +84,25 @@ def handleF64 : List String → String
         if op == op2 && x == a && y == b then t else if op == op1 && x == v && y == t then c else 0
       renderRes (evalRight ar v op1 a op2 b)
     | _, _, _, _, _, _, _ => "bad-op"
+  | ["math", f, x, c] =>
+    -- unary math instruction; `c` = the host's libm result (ignored for floor/ceil/round, which the model computes)
+    let fn? : Option Math1 := match f with
+      | "sqrt" => some .sqrt | "sin" => some .sin | "cos" => some .cos | "tan" => some .tan
+      | "asin" => some .asin | "acos" => some .acos | "atan" => some .atan | "log" => some .log
+      | "log2" => some .log2 | "log10" => some .log10 | "floor" => some .floor | "ceil" => some .ceil
+      | "round" => some .round | _ => none
+    match fn?, bits? x, bits? c with
+    | some fn, some x, some c => "ok " ++ renderBits (math1 (fun _ _ => c) fn x)
+    | _, _, _ => "bad-op"
+  | ["atan2", _y, _x, c] =>
+    match bits? c with
+    | some c => "ok " ++ renderBits c
+    | none => "bad-op"
+  | ["viastring", x] =>
+    -- `string_from_float` / `.str()` then parsed back by the host
+    match bits? x with
+    | some x => "ok " ++ renderBits (viaString x)
+    | none => "bad-op"
   | ["neg", x, c] =>
     match bits? x, bits? c with
     | some x, some c => "ok " ++ renderBits (negate (fun _ _ => c) x)
